@@ -201,6 +201,22 @@ def stub_path(spec, rng, acc):
                 pgns.add((dp << 16) | (pf << 8) | ps)
     installed = []
     n = 0
+    # seam self-test: does the encoder pick up a codec registered under the generated naming convention at all?
+    probe_name = "encode_pgn_130999"
+    had = hasattr(encoder_mod, probe_name)
+    if not had:
+        setattr(encoder_mod, probe_name, lambda m: b"\x01\x02\x03")
+    try:
+        enc.encode_ebyte(NMEA2000Message(PGN=130999, id="stub", priority=3, source=1, destination=255))
+        seam_ok = True
+    except Exception as e:  # noqa: BLE001
+        seam_ok = False
+        acc.note(f"stub codec seam unavailable ({type(e).__name__}: {e}): arbitrary-PGN encode path not exercised")
+    finally:
+        if not had:
+            delattr(encoder_mod, probe_name)
+    if not seam_ok:
+        return
     try:
         for pgn in sorted(pgns):
             name = f"encode_pgn_{pgn}"
